@@ -27,6 +27,7 @@ CONSTANTS
     HydCounts,    \* leading integers of hydrate parts (1 = not written)
     ChargeToks,   \* charge tokens as records [t, q]
     PrefixSet,     \* subset of AllPrefixes
+    MaxPrefixes,   \* how many prefixes one formula may carry (greek letters, then the radical dot)
     SuffixSet,     \* subset of AllSuffixes
     PrimeMarks,   \* subset of {"*", "'", "**", "*'"}
     MaxPrimes,
@@ -43,6 +44,9 @@ Greek == <<"alpha", "beta", "gamma", "delta", "epsilon", "zeta", "eta", "theta",
            "lambda", "mu", "nu", "xi", "omicron", "pi", "rho", "sigma", "tau", "upsilon", "phi",
            "chi", "psi", "omega">>
 AllPrefixes == {"."} \cup { Greek[i] \o "-" : i \in 1..Len(Greek) }
+(* Several prefixes are written in the order of the notation's table: greek letters alphabetically, the    *)
+(* radical dot last ("alpha-.NO2").  Other orders are not part of the notation and are not generated.      *)
+PrefixRank(p) == IF p = "." THEN Len(Greek) + 1 ELSE CHOOSE i \in 1..Len(Greek) : Greek[i] \o "-" = p
 AllSuffixes == {"(s)", "(l)", "(g)", "(aq)"}
 CloserOf(b) == IF b = "(" THEN ")" ELSE IF b = "[" THEN "]" ELSE "}"
 AllBrackets == {"(", "[", "{"}
@@ -92,7 +96,10 @@ TermJustEnded == LastKind \in {"atom", "close", "prime", "bad", "stray"}
 NOpens == Cardinality({ i \in 1..Len(toks) : toks[i].k = "open" })
 
 Prefix(p) ==
-    /\ stage = "start" /\ toks = <<>> /\ p \in AllPrefixes
+    /\ stage = "start" /\ p \in AllPrefixes
+    /\ \A i \in 1..Len(toks) : toks[i].k = "pre"
+    /\ Len(toks) < MaxPrefixes
+    /\ toks # <<>> => PrefixRank(toks[Len(toks)].t) < PrefixRank(p)
     /\ txt' = txt \o p
     /\ toks' = Append(toks, [k |-> "pre", t |-> p])
     /\ UNCHANGED <<stack, closers, total, partMult, nparts, sep, stage, fault, nterms, nprimes>>
@@ -268,7 +275,9 @@ Denote == [z \in { toks[p].z : p \in AtomPos } |->
 ChargePos == { p \in 1..Len(toks) : IsK(p, "chg") }
 ChargeOf == IF ChargePos = {} THEN 0 ELSE toks[CHOOSE p \in ChargePos : TRUE].q
 HasCharge == ChargePos # {}
-PrefixOf == IF toks # <<>> /\ IsK(1, "pre") THEN toks[1].t ELSE ""
+RECURSIVE PrefixFrom(_)
+PrefixFrom(i) == IF i <= Len(toks) /\ IsK(i, "pre") THEN toks[i].t \o PrefixFrom(i + 1) ELSE ""
+PrefixOf == PrefixFrom(1)
 SuffixOf == IF toks # <<>> /\ IsK(Len(toks), "suf") THEN toks[Len(toks)].t ELSE ""
 
 (* design-level invariants *)
@@ -276,6 +285,8 @@ OperationalIsDeclarative == (Done /\ WellFormed) => total = Denote
 KeysExact == (Done /\ WellFormed) => DOMAIN total = { toks[p].z : p \in AtomPos }
 AllPositive == (Done /\ WellFormed) => \A z \in DOMAIN total : QLt(QZero, total[z])
 ChargeOnlyFromToken == Cardinality(ChargePos) <= 1
+PrefixesInTableOrder == \A i, j \in 1..Len(toks) :
+    (i < j /\ IsK(i, "pre") /\ IsK(j, "pre")) => PrefixRank(toks[i].t) < PrefixRank(toks[j].t)
 StackShape == Len(stack) = Len(closers) + 1 \/ fault # "none"
 TypeOK == stage \in {"start", "body", "charged", "suffixed", "done"}
 
@@ -305,6 +316,8 @@ PhaseIdx(sfx, phases) == IF \E i \in 1..Len(phases) : phases[i] = sfx
                          THEN CHOOSE i \in 1..Len(phases) : phases[i] = sfx ELSE 0
 
 PhaseIdxMap(sfx, map, default) == IF sfx \in DOMAIN map THEN map[sfx] ELSE default
+(* an explicitly given phase index wins over whatever suffix is written (which remains a suffix) *)
+PhaseIdxGiven(sfx, n) == n
 
 ------------------------------------------------------------------------------
 (* molar mass (C14): see Mass.tla - MassNumOf(comp, q), MassDenOf(comp) *)
@@ -327,6 +340,7 @@ CaseRec ==
                      \* phases given as a mapping suffix -> index, with default index 7 for the others
                      phase_dict |-> PhaseIdxMap(SuffixOf, ("(aq)" :> 0) @@ ("(s)" :> 5) @@ ("(g)" :> 2), 7),
                      \* default_phase_idx = None: an unknown (or missing) suffix must be refused
+                     phase_given |-> PhaseIdxGiven(SuffixOf, 4),
                      phase_none_raises |-> PhaseIdx(SuffixOf, <<"(s)", "(l)", "(g)">>) = 0,
                      massnum |-> MassNumOf(total, ChargeOf), massden |-> MassDenOf(total),
                      ntoks |-> Len(toks) ] ]
